@@ -27,7 +27,10 @@
 (*                  process-wide memo keyed too coarsely is filled by the  *)
 (*                  first fit and read by every later one);                *)
 (*   RejectKeeps    a rejected fit leaves the model as it was (off: it     *)
-(*                  resets the model's disqualification list first).       *)
+(*                  resets the model's disqualification list first);       *)
+(*   OwnMaps        a model routes days with the calendar maps of its own  *)
+(*                  settings (off: the constructor writes them into a      *)
+(*                  class-level table - those of the model built last).    *)
 (* For each hazard TLC returns the SHORTEST history that exposes it; these *)
 (* histories are the rare sequence features the replay cover must contain  *)
 (* (engine/life.py RARE) - the I-layer is where they come from.            *)
@@ -40,7 +43,7 @@
 (***************************************************************************)
 EXTENDS Integers, FiniteSets, Sequences, TLC
 CONSTANTS Slots, CopyLists, LocalClusters, RefreshParams, MaxCalls,
-          OwnScalers, CopyOnHandOut, KeyedMemo, RejectKeeps
+          OwnScalers, CopyOnHandOut, KeyedMemo, RejectKeeps, OwnMaps
 None == "none"
 Baselines == {"good", "poor", "short"}     \* "poor": fit is poor; "short": the data object carries a sufficiency disqualification
 Reports   == {"week", "year"}
@@ -50,7 +53,9 @@ DataCell(b) == "L_" \o b
 ModelCell(s) == "M_" \o s
 ScalerCell(s) == "S_" \o s
 CacheCell(s) == "F_" \o s
+MapsCell(s) == IF OwnMaps THEN "P_" \o s ELSE "P_class"
 Cells == {DataCell(b) : b \in Baselines} \cup {ModelCell(s) : s \in Slots} \cup {ScalerCell(s) : s \in Slots} \cup {CacheCell(s) : s \in Slots}
+         \cup {"P_" \o s : s \in Slots} \cup {"P_class"}
          \cup {"S_class", "MEMO", "U"}      \* class-level scaler objects, a process-wide memo, a frame copy owned by the caller
 VARIABLES heap,     \* [Cells -> set of dq names]: the python list objects
           model,    \* [Slots -> [st, base, dq (a cell or None), pdq (snapshot that is serialised), clusters]]
@@ -59,10 +64,10 @@ VARIABLES heap,     \* [Cells -> set of dq names]: the python list objects
           held,     \* the cell behind the frame the caller received last (None: none)
           ncalls
 vars == <<heap, model, store, last, held, ncalls>>
-NoModel == [st |-> "new", base |-> None, dq |-> None, pdq |-> {}, clusters |-> {}, scaler |-> None, stats |-> None, cache |-> None]
+NoModel == [st |-> "new", base |-> None, dq |-> None, pdq |-> {}, clusters |-> {}, scaler |-> None, stats |-> None, cache |-> None, map |-> "default"]
 \* two documents written by an earlier process: a qualified and a poor-fit model
 Doc(b, dq) == [base |-> b, dq |-> dq, scaler |-> {b}, stats |-> b]
-Init == /\ heap = [c \in Cells |-> IF c = DataCell("short") THEN {"length"} ELSE {}]
+Init == /\ heap = [c \in Cells |-> IF c = DataCell("short") THEN {"length"} ELSE IF c \in {"P_" \o s : s \in Slots} \cup {"P_class"} THEN {"default"} ELSE {}]
         /\ model = [s \in Slots |-> NoModel]
         /\ store = <<Doc("good", {}), Doc("poor", {"poorfit"})>> /\ last = [op |-> "init"] /\ held = None /\ ncalls = 0
 Tick == ncalls < MaxCalls /\ ncalls' = ncalls + 1
@@ -82,7 +87,7 @@ Fit(s, b, ign) ==
           IN /\ heap' = h3
              /\ model' = [model EXCEPT ![s] = [st |-> "fitted", base |-> b, dq |-> cell,
                                                pdq |-> IF RefreshParams THEN h2[cell] ELSE snap, clusters |-> AllCombos,
-                                               scaler |-> ScalerCell(s), stats |-> stat, cache |-> CacheCell(s)]]
+                                               scaler |-> ScalerCell(s), stats |-> stat, cache |-> CacheCell(s), map |-> model[s].map]]
              /\ last' = [op |-> "fit", s |-> s, b |-> b, out |-> "ok"] /\ UNCHANGED store
 
 Predict(s, r, ign) ==
@@ -91,7 +96,7 @@ Predict(s, r, ign) ==
      THEN last' = [op |-> "predict", s |-> s, r |-> r, ign |-> ign, out |-> "DisqualifiedModelError"] /\ UNCHANGED <<heap, model, store, held>>
      ELSE \* the value depends on which (month, weekday) cells still have a fitted cluster and on the scaler contents; the table is re-indexed to the report
           /\ last' = [op |-> "predict", s |-> s, r |-> r, ign |-> ign, out |-> "ok", val |-> <<model[s].base, r, Combos[r] \cap model[s].clusters>>,
-                       scaled |-> heap[model[s].scaler]]
+                       scaled |-> heap[model[s].scaler], routed |-> heap[MapsCell(s)]]
           /\ model' = IF LocalClusters THEN model ELSE [model EXCEPT ![s].clusters = Combos[r]]
           /\ UNCHANGED <<heap, store, held>>
 
@@ -104,6 +109,13 @@ PredictOwn(s, ign) ==
           /\ IF CopyOnHandOut THEN held' = "U" /\ heap' = [heap EXCEPT !["U"] = heap[model[s].cache]]
                                ELSE held' = model[s].cache /\ heap' = heap
           /\ UNCHANGED <<model, store>>
+
+\* a model object is constructed in slot s with the weekday map mp of its settings
+Configure(s, mp) ==
+  /\ Tick /\ model[s].st = "new"
+  /\ heap' = [heap EXCEPT ![MapsCell(s)] = {mp}]
+  /\ model' = [model EXCEPT ![s].map = mp]
+  /\ last' = [op |-> "configure", s |-> s] /\ UNCHANGED <<store, held>>
 
 \* the caller overwrites the frame it received
 Scribble == /\ Tick /\ held # None
@@ -120,7 +132,7 @@ Load(s, k) ==
   /\ LET sc == IF OwnScalers THEN ScalerCell(s) ELSE "S_class" IN
      /\ heap' = [heap EXCEPT ![ModelCell(s)] = store[k].dq, ![sc] = store[k].scaler]
      /\ model' = [model EXCEPT ![s] = [st |-> "fitted", base |-> store[k].base, dq |-> ModelCell(s), pdq |-> store[k].dq, clusters |-> AllCombos,
-                                       scaler |-> sc, stats |-> store[k].stats, cache |-> None]]
+                                       scaler |-> sc, stats |-> store[k].stats, cache |-> None, map |-> model[s].map]]
   /\ last' = [op |-> "load", s |-> s, k |-> k] /\ UNCHANGED <<store, held>>
 
 Next == \/ \E s \in Slots, b \in Baselines, ign \in BOOLEAN : Fit(s, b, ign)
@@ -129,6 +141,7 @@ Next == \/ \E s \in Slots, b \in Baselines, ign \in BOOLEAN : Fit(s, b, ign)
         \/ \E s \in Slots, k \in 1..Len(store) : Load(s, k)
         \/ \E s \in Slots, ign \in BOOLEAN : PredictOwn(s, ign)
         \/ Scribble
+        \/ \E s \in Slots, mp \in {"default", "frisat"} : Configure(s, mp)
 Spec == Init /\ [][Next]_vars
 
 ----------------------------------------------------------------------------
@@ -143,6 +156,8 @@ RestoredModelsIndependent == (last.op = "predict" /\ last.out = "ok") => last.sc
 ResavedScalerIsOwn == \A s \in Slots : (last.op = "save" /\ last.s = s) => store[Len(store)].scaler = {model[s].base}
 \* [HandedOutFramesAreCopies / PredSameAcrossHistory] what the caller does to a returned frame never shows in a later prediction
 HandOutsAreCopies == (last.op = "predictown" /\ last.out = "ok") => last.frame = {model[last.s].base}
+\* [EachDayPredictedByTheSubModelOfItsCell] a model routes days with the maps of its OWN settings, whatever was constructed since
+RoutesWithItsOwnMaps == (last.op = "predict" /\ last.out = "ok") => last.routed = {model[last.s].map}
 \* [FitJsonSameAcrossFits / ReportedStatisticsAreThoseOfTheLastFit] what a fit reports depends on its own data only
 FitDependsOnItsOwnData == \A s \in Slots : model[s].st = "fitted" => model[s].stats = model[s].base
 \* [FitReturnsOrDataSufficiencyError] fit raises exactly when the DATA carries a disqualification (never because of an earlier fit)
